@@ -47,10 +47,10 @@ Fixpoint try_indices (c : scfg) (f : fs) (d : path) (idx : list str) : option so
   match idx with
   | [] => None
   | i :: rest =>
-      match realpath f d [i] with
-      | RLoop => Some (ORaise (lit "symlink-loop"))
-      | RFuel => Some OOom
-      | RPath ip =>
+      match resolve_fully f d [i] with
+      | FNone => try_indices c f d rest
+      | FFuel => Some OOom
+      | FPath ip =>
           if path_prefixb (s_root c) ip && match lstat f ip with Some (File _) => true | _ => false end
           then Some (serve_file c f ip)
           else try_indices c f d rest
@@ -67,11 +67,11 @@ Definition handle (c : scfg) (f : fs) (url_path : str) : sout :=
   | OutOfModel | Err _ _ => OOom
   | Ok up =>
     let rel := lstrip_slash up in
-    if mem 0 rel then ORaise (lit "null-byte") else
-    match realpath f (s_root c) (comps rel) with
-    | RLoop => ORaise (lit "symlink-loop")
-    | RFuel => OOom
-    | RPath fp =>
+    if mem 0 rel then OStatus 51 (lit "Not found") else
+    match resolve_fully f (s_root c) (comps rel) with
+    | FNone => OStatus 51 (lit "Not found")
+    | FFuel => OOom
+    | FPath fp =>
         if negb (path_prefixb (s_root c) fp) then OStatus 51 (lit "Not found")
         else if name_too_long fp then ORaise (lit "oserror")
         else match lstat f fp with
@@ -127,11 +127,11 @@ Definition resolve_target (c : ucfg) (f : fs) (p : str) : res (option path) :=  
   | OutOfModel | Err _ _ => OutOfModel
   | Ok up =>
       let rel := lstrip_slash up in
-      if mem 0 rel then Err (lit "null-byte") [] else
-      match realpath f (u_root c) (comps rel) with
-      | RLoop => Err (lit "symlink-loop") []
-      | RFuel => OutOfModel
-      | RPath t => if path_prefixb (u_root c) t then Ok (Some t) else Ok None
+      if mem 0 rel then Ok None else
+      match resolve_fully f (u_root c) (comps rel) with
+      | FNone => Ok None
+      | FFuel => OutOfModel
+      | FPath t => if path_prefixb (u_root c) t then Ok (Some t) else Ok None
       end
   end.
 
